@@ -135,6 +135,21 @@ def r_resolver(root):
             e = v.value if k == "raise" and isinstance(getattr(v, "value", None), dict) else None
             ok = k == "raise" and v.cls == "TextXSemanticError" and e is not None and e[".err_type"] == UNKNOWN and (tuple(e[".line"]) if isinstance(e[".line"], (list, tuple)) else e[".line"]) == ("line", 42) and (tuple(e[".col"]) if isinstance(e[".col"], (list, tuple)) else e[".col"]) == ("col", 42) and e[".filename"] == "model.file"
         rep("C07", "C07.e", what, ok, "a reference to 'x' with %s: the round %s; documented: %s" % (what, ("stores %s" % ("the builtin" if o[".one"] is b_obj else o[".one"])) if k == "ret" else "raises %s%s" % (v.cls, "" if not isinstance(getattr(v, "value", None), dict) else " (type %r, line %s, file %r)" % (v.value.get(".err_type"), v.value.get(".line"), v.value.get(".filename"))), "the builtin is used" if want == "builtin" else "a TextXSemanticError of type 'Unknown object' at the reference (line/col of offset 42 by the model's parser, the model's file)"), witness="reference to a name that only the builtins know")
+    # a postponed reference whose name is also a builtin stays postponed; a dotted name is looked up in the builtins as it is written
+    b_obj = HS({".kind": "builtin", ".conforms_to": cls, ".__complete__": "all"})
+    w = World(builtins={"x": b_obj, "int": b_obj}); o = w.obj(one=None, two=None); late = w.target("x", cls)
+    w.schedule = {"x": 1}
+    w.parser["._crossrefs"] = [(o, w.attr("one", False), w.ref("x", 42, cls))]
+    k, v = w.step()
+    okp = k == "ret" and o[".one"] is None and isinstance(v, (list, tuple)) and len(v) == 2 and v[0] == 0 and [x[2][".obj_name"] for x in v[1]] == ["x"] and [x[2][".obj_name"] for x in w.parser["._crossrefs"]] == ["x"]
+    k2, v2 = w.step() if okp else (None, None)
+    okp = okp and k2 == "ret" and o[".one"] is late
+    rep("C09", "C09.e", "a postponed reference whose name is also a builtin", okp, "a reference to 'x' that the provider postpones for one round, with a builtin named 'x': the first round %s and the attribute then holds %s; documented: the reference is re-queued and reported as delayed, and bound to the model object the provider delivers in the next round (the builtins are a fallback for references nobody resolves, not for postponed ones)" % (("returns %s resolved / %s delayed" % (v[0], [x[2][".obj_name"] for x in v[1]]) if k == "ret" and isinstance(v, (list, tuple)) and len(v) == 2 else "raises " + getattr(v, "cls", "?")), "the builtin" if o[".one"] is b_obj else ("nothing" if o[".one"] is None else "the model object")), witness="builtins={'x': ...} and a provider answering Postponed for x")
+    w = World(builtins={"int": b_obj}); o = w.obj(one=None)
+    w.parser["._crossrefs"] = [(o, w.attr("one", False), w.ref("nope.int", 42, cls))]
+    k, v = w.step()
+    okq = k == "raise" and v.cls == "TextXSemanticError"
+    rep("C07", "C07.e", "a dotted name whose last part is a builtin name", okq, "a reference to 'nope.int' that nobody resolves, with a builtin named 'int': the round %s; documented: 'Unknown object' (the builtins are looked up by the name as written)" % ("stores the builtin" if k == "ret" and o[".one"] is b_obj else ("returns" if k == "ret" else "raises " + v.cls)), witness="builtins={'int': ...} and a reference q.int")
     # ------------------------------------------------------------------ C34.h tool support bookkeeping
     for tools in (True, False):
         b_obj = HS({".kind": "builtin", ".conforms_to": cls, ".__complete__": "all"})
